@@ -1,37 +1,4 @@
-use std::ops::Add;
-use std::time::Duration;
-// Oracle: the proleptic Gregorian calendar, written from its definition (not from time.rs).
-pub open spec fn is_leap(y: int) -> bool { y % 400 == 0 || (y % 100 != 0 && y % 4 == 0) }
-pub open spec fn ylen(y: int) -> int { if is_leap(y) { 366 } else { 365 } }
-pub open spec fn mlen(y: int, m: int) -> int {
-    if m == 2 { if is_leap(y) { 29 } else { 28 } }
-    else if m == 4 || m == 6 || m == 9 || m == 11 { 30 } else { 31 }
-}
-// days before month m in year y
-pub open spec fn dbm(y: int, m: int) -> int decreases m {
-    if m <= 1 { 0 } else { dbm(y, m - 1) + mlen(y, m - 1) }
-}
-// leap years in [1, y)
-pub open spec fn leaps(y: int) -> int { (y - 1) / 4 - (y - 1) / 100 + (y - 1) / 400 }
-// days from 1970-01-01 to y-01-01
-pub open spec fn dby(y: int) -> int { 365 * (y - 1970) + leaps(y) - leaps(1970) }
-// normalised year / month of a DateTime whose month field may exceed 12
-pub open spec fn ny(dt: DateTime) -> int { dt.year + (dt.month - 1) / 12 }
-pub open spec fn nm(dt: DateTime) -> int { (dt.month - 1) % 12 + 1 }
-// days since the epoch / seconds since the epoch denoted by the (possibly unbalanced) fields
-pub open spec fn days(dt: DateTime) -> int { dby(ny(dt)) + dbm(ny(dt), nm(dt)) + dt.day - 1 }
-pub open spec fn secs(dt: DateTime) -> int { ((days(dt) * 24 + dt.hour) * 60 + dt.min) * 60 + dt.sec }
-pub open spec fn bounded(dt: DateTime, b: int) -> bool {
-    1970 <= dt.year <= b && 1 <= dt.month <= b
-    && 1 <= dt.day <= b && 0 <= dt.hour <= b
-    && 0 <= dt.min <= b && 0 <= dt.sec <= b
-}
-pub open spec fn valid_ymd(dt: DateTime) -> bool {
-    1 <= dt.month <= 12 && 1 <= dt.day <= mlen(dt.year as int, dt.month as int)
-}
-pub open spec fn valid(dt: DateTime) -> bool {
-    dt.year >= 1970 && valid_ymd(dt) && 0 <= dt.hour < 24 && 0 <= dt.min < 60 && 0 <= dt.sec < 60
-}
+// (spec functions: timespec.pre.rs)
 pub proof fn lemma_dby_step(y: int)
     requires y >= 1
     ensures dby(y + 1) - dby(y) == ylen(y)
@@ -44,10 +11,4 @@ pub proof fn lemma_dbm(y: int)
 {
     reveal_with_fuel(dbm, 14);
 }
-
-// std::time::Duration: only as_secs is used by the code under contract (assumed contract).
-// (vstd already declares the external type std::time::Duration)
-pub uninterp spec fn dur_secs(d: std::time::Duration) -> int;
-pub assume_specification[ std::time::Duration::as_secs ](d: &std::time::Duration) -> (r: u64)
-    ensures r == dur_secs(*d);
 
